@@ -8,7 +8,11 @@ ROOT=$(cd "$(dirname "$0")/.." && pwd)
 cd "$ROOT"; . ./env.sh
 id=$1; tier=$2; shift 2
 vargs=()
-while [ $# -gt 0 ] && [ "$1" != "--" ]; do vargs+=("$1"); shift; done
+sub=""
+while [ $# -gt 0 ] && [ "$1" != "--" ]; do
+  if [ "$1" = "-sub" ]; then sub="/$2"; shift 2; continue; fi
+  vargs+=("$1"); shift
+done
 [ "${1:-}" = "--" ] && shift
 lc=$(echo "$id" | tr 'A-Z' 'a-z')
 T=$(mktemp -d "${TMPDIR:-/tmp}/verif-$lc.XXXXXX")
@@ -22,8 +26,8 @@ base=()
 "$ROOT/bin/vinst" -repo /repo -out "$T/gen" -vsched "$ROOT/engine/vsched" "${base[@]+"${base[@]}"}" "${vargs[@]}" > "$T/vinst.log" 2>&1
 rc=$?
 if [ $rc -ne 0 ]; then cat "$T/vinst.log"; echo "HARNESS-ERROR instrumentation failed"; exit 2; fi
-bin="${VERIF_BIN:-$ROOT/bin}/$lc"
-if ! go build -tags verif -overlay "$T/gen/overlay.json" -o "$bin" "./props/$lc" 2> "$T/build.log"; then
+bin="${VERIF_BIN:-$ROOT/bin}/$lc$(echo "$sub" | tr -d /)"
+if ! go build -tags verif -overlay "$T/gen/overlay.json" -o "$bin" "./props/$lc$sub" 2> "$T/build.log"; then
   echo "HARNESS-ERROR build of $id against the instrumented tree failed"; head -40 "$T/build.log"; exit 2
 fi
 "$bin" -tier "$tier" "$@"
